@@ -32,6 +32,9 @@ func runC09(c *Ctx) {
 	c.Rule("C09.R6", "EFF", "in-place operations act on a fresh slice", 2)
 	c.Rule("C09.R7", "WIRE", "every exception is applied (complete scan of a complete exception list)", 2)
 	checkKeywordTables(c, "C09.R8")
+	if !c.noImports {
+		importRules(c, runC10, map[string]string{"C10.R9": "C09.R9"}, map[string]string{"C09.R9": "rewrite values are parsed whole, so two rewrites with different values stay different and an exception for one leaves the other (shared with C10.R9)"})
+	}
 
 	a := &anchors{c: c, rule: "C09.R1"}
 	dr := a.method("", "DNSResult", "DNSRewrites")
